@@ -32,6 +32,8 @@ def type_xml(t, out=False, nested=False):
     compiler strips again)"""
     k = t[0]
     o = '*' if out else ''
+    if nested and k == 'xiface':
+        return '<type name="%s.%s"/>' % (t[1], t[2])
     if nested and k in ('basic', 'utf8', 'filename', 'gpointer', 'iface'):
         # element types carry no c:type in scanner output
         return '<type name="%s"/>' % ({'utf8': 'utf8', 'filename': 'filename', 'gpointer': 'gpointer'}.get(k) or (t[1] if k == 'basic' else 'T.' + t[1]))
@@ -61,6 +63,11 @@ def type_xml(t, out=False, nested=False):
         return '<array name="%s" c:type="%s*">%s</array>' % (t[1], t[1].replace('.', ''), type_xml(t[2], nested=True))
     if k == 'iface':
         return '<type name="T.%s" c:type="T%s%s%s"/>' % (t[1], t[1], '*' if t[2] else '', o)
+    if k == 'xiface':
+        # a type of an included namespace; ("X"|"Y").Handle is a pointer="1" record in X (its C name is already a
+        # pointer) and a plain record in Y
+        star = '' if (t[1], t[2]) == ('X', 'Handle') else '*'
+        return '<type name="%s.%s" c:type="%s%s%s%s"/>' % (t[1], t[2], t[1], t[2], star, o)
     if k == 'glist':
         return '<type name="GLib.List" c:type="GList*">%s</type>' % type_xml(t[1], nested=True)
     if k == 'gslist':
@@ -99,6 +106,8 @@ def type_str(t, in_field=False, nested=False):
         return 'array[%d,zero=0,len=-1,fixed=-1,ptr=1](%s)' % (kind, type_str(t[2], nested=True))
     if k == 'iface':
         return 'iface(T.%s,ptr=%d)' % (t[1], 1 if (t[2] and not nested) else 0)
+    if k == 'xiface':
+        return 'iface(%s.%s,ptr=%d)' % (t[1], t[2], 0 if nested else 1)
     if k == 'glist':
         return 'glist(%s)' % type_str(t[1], nested=True)
     if k == 'gslist':
@@ -117,6 +126,7 @@ class Gen(object):
         self.rng = rng
         self.n = 0
         self.types = []          # names usable in iface types: (name, kind)
+        self.foreign = False     # may refer to types of the included namespaces X and Y (see INCLUDED)
 
     def uid(self, p):
         self.n += 1
@@ -134,6 +144,8 @@ class Gen(object):
             return ('utf8',) if self.rng.random() < 0.8 else ('filename',)
         if r < 0.52:
             return ('gpointer',)
+        if self.foreign and 0.52 <= r < 0.56:
+            return ('xiface',) + self.rng.choice([('X', 'Item'), ('Y', 'Item'), ('X', 'Other'), ('X', 'Handle'), ('Y', 'Handle'), ('Y', 'Item')])
         if r < 0.6 and self.types:
             n, kind = self.rng.choice(self.types)
             return ('iface', n, kind in ('record', 'object', 'interface', 'union') and self.rng.random() < 0.9)
@@ -486,6 +498,23 @@ def entry_xml(e):
         out.append('</%s>' % k)
         return ''.join(out)
     raise ValueError(k)
+
+
+# the two included namespaces: both have a record Item and a record Handle; X.Handle is a pointer="1" record
+INCLUDED = {
+    'X': '<?xml version="1.0"?>\n<repository version="1.2" xmlns="http://www.gtk.org/introspection/core/1.0" '
+         'xmlns:c="http://www.gtk.org/introspection/c/1.0" xmlns:glib="http://www.gtk.org/introspection/glib/1.0">\n'
+         '<namespace name="X" version="1.0" shared-library="libx.so" c:identifier-prefixes="X" c:symbol-prefixes="x">\n'
+         '<record name="Item" c:type="XItem"><field name="a" writable="1"><type name="gint32" c:type="gint32"/></field></record>\n'
+         '<record name="Other" c:type="XOther"><field name="b" writable="1"><type name="gdouble" c:type="gdouble"/></field></record>\n'
+         '<record name="Handle" c:type="XHandle" disguised="1" pointer="1"/>\n</namespace>\n</repository>\n',
+    'Y': '<?xml version="1.0"?>\n<repository version="1.2" xmlns="http://www.gtk.org/introspection/core/1.0" '
+         'xmlns:c="http://www.gtk.org/introspection/c/1.0" xmlns:glib="http://www.gtk.org/introspection/glib/1.0">\n'
+         '<namespace name="Y" version="1.0" shared-library="liby.so" c:identifier-prefixes="Y" c:symbol-prefixes="y">\n'
+         '<record name="Item" c:type="YItem"><field name="c" writable="1"><type name="gint8" c:type="gint8"/></field>'
+         '<field name="d" writable="1"><type name="gint64" c:type="gint64"/></field></record>\n'
+         '<record name="Handle" c:type="YHandle"><field name="e" writable="1"><type name="gint16" c:type="gint16"/></field></record>\n'
+         '</namespace>\n</repository>\n'}
 
 
 def to_gir(ns, includes=()):
